@@ -1,9 +1,102 @@
 (* C16 — SLH-DSA keys and signatures conform to FIPS 205 on every input.
-   Only statements + `exact`; proofs live in proofs/Slhdsa*Proofs.v. *)
+   Only statements + `exact`; proofs live in proofs/Slhdsa*Proofs.v.
+
+   The model (model/Slhdsa*.v) follows internal/signature/slhdsa: one mutable
+   address threaded through chain / WOTS+ / XMSS / FORS / hypertree, the
+   digest split with its masks, the key encodings.  The six hash functions
+   are ABSTRACT (a record `hashes`); the only law assumed of them is their
+   output length (`hashes_ok`), which the SHA2 / SHAKE instantiations of
+   hash.go satisfy given the digest sizes of the stdlib primitives.  All
+   theorems therefore hold for arbitrary hash functions: they are about the
+   address bookkeeping, index extraction, chunking and tree recomputation. *)
 From Coq Require Import List NArith Bool Arith.
-From Tink Require Import Bytes SlhdsaSupport SlhdsaAddr SlhdsaBase SlhdsaWots SlhdsaWotsProofs.
+From Tink Require Import Bytes SlhdsaSupport SlhdsaAddr SlhdsaBase SlhdsaWots SlhdsaXmss SlhdsaFors SlhdsaHt
+  Slhdsa SlhdsaHash SlhdsaParams SlhdsaSpec
+  SlhdsaSupportProofs SlhdsaWotsProofs SlhdsaXmssProofs SlhdsaForsProofs SlhdsaHtProofs SlhdsaProofs SlhdsaParamsProofs.
 Import ListNotations.
 Open Scope N_scope.
+
+(* === every produced signature verifies ================================= *)
+
+(* For every parameter record with h = d*hp and d >= 1, every hash family with
+   n-byte outputs, all n-byte seeds, every message, every context of at most
+   255 bytes and every randomizer: Sign succeeds on the generated key, the
+   signature has the FIPS 205 size, and Verify under the generated public key
+   accepts it. *)
+Theorem C16_verify_accepts_every_signature :
+  forall (P : params) (HS : hashes), hashes_ok P HS -> params_wf P ->
+  forall skSeed skPrf pkSeed msg ctx addrnd,
+    length skSeed = p_n P -> length skPrf = p_n P -> length pkSeed = p_n P -> (length ctx <= 255)%nat ->
+    let sk := keygen P HS skSeed skPrf pkSeed in
+    let pk := skipn (2 * p_n P) sk in
+    exists sig, sign P HS sk msg ctx addrnd = Some sig /\ length sig = sig_len P
+                /\ verify P HS pk msg sig ctx = Some true.
+Proof. exact verify_sign. Qed.
+Print Assumptions C16_verify_accepts_every_signature.
+
+(* The same for the twelve parameter sets with the hash.go instantiations,
+   from nothing but the digest lengths of SHA-256, SHA-512, SHAKE256, HMAC. *)
+Theorem C16_twelve_sets_verify_accept_every_signature :
+  forall (sha256 sha512 : bytes -> bytes) (shake256 : bytes -> nat -> bytes) (hmac256 hmac512 : bytes -> bytes -> bytes),
+    (forall m, length (sha256 m) = 32%nat) -> (forall m, length (sha512 m) = 64%nat) ->
+    (forall m l, length (shake256 m l) = l) ->
+    (forall k m, length (hmac256 k m) = 32%nat) -> (forall k m, length (hmac512 k m) = 64%nat) ->
+  forall s, In s all_sets ->
+    let P := fst s in
+    let HS := mk_hashes sha256 sha512 shake256 hmac256 hmac512 (snd s) P in
+  forall skSeed skPrf pkSeed msg ctx addrnd,
+    length skSeed = p_n P -> length skPrf = p_n P -> length pkSeed = p_n P -> (length ctx <= 255)%nat ->
+    let sk := keygen P HS skSeed skPrf pkSeed in
+    exists sig, sign P HS sk msg ctx addrnd = Some sig /\ length sig = sig_len P
+                /\ verify P HS (skipn (2 * p_n P) sk) msg sig ctx = Some true.
+Proof.
+  intros sha256 sha512 shake256 hmac256 hmac512 H1 H2 H3 H4 H5 s Hs P HS.
+  destruct (all_sets_wf s Hs) as [WF Hn].
+  exact (verify_sign P HS (mk_hashes_ok _ _ _ _ _ H1 H2 H3 H4 H5 (snd s) P Hn) WF).
+Qed.
+Print Assumptions C16_twelve_sets_verify_accept_every_signature.
+
+(* signInternal / verifyInternal as coded (key = the three seeds + root) *)
+Theorem C16_verifyInternal_signInternal :
+  forall P HS, hashes_ok P HS -> params_wf P -> forall skSeed skPrf pkSeed msg addrnd,
+    verifyInternal P HS pkSeed (keygenRoot P HS skSeed pkSeed) msg
+      (signInternal P HS skSeed skPrf pkSeed (keygenRoot P HS skSeed pkSeed) msg addrnd) = true.
+Proof. exact verify_sign_internal. Qed.
+Print Assumptions C16_verifyInternal_signInternal.
+
+(* === lengths =========================================================== *)
+
+Theorem C16_signature_length :
+  forall P HS, hashes_ok P HS -> params_wf P -> forall skSeed skPrf pkSeed pkRoot msg addrnd,
+    length (signInternal P HS skSeed skPrf pkSeed pkRoot msg addrnd) = sig_len P.
+Proof. exact signInternal_length. Qed.
+Print Assumptions C16_signature_length.
+
+(* a signature of any other length is rejected, whatever the hash functions *)
+Theorem C16_wrong_length_rejected :
+  forall P HS pkSeed pkRoot msg sig, length sig <> sig_len P -> verifyInternal P HS pkSeed pkRoot msg sig = false.
+Proof. exact verifyInternal_wrong_length. Qed.
+Print Assumptions C16_wrong_length_rejected.
+
+(* === index extraction =================================================== *)
+
+(* every digest yields idx_leaf < 2^h' and idx_tree < 2^(h-h') *)
+Theorem C16_index_bounds :
+  forall P digest md idxTree idxLeaf, split_digest P digest = (md, idxTree, idxLeaf) ->
+    idxLeaf < 2 ^ N.of_nat (p_hp P) /\ idxTree < 2 ^ N.of_nat (p_h P - p_hp P).
+Proof.
+  intros P digest md idxTree idxLeaf H. split;
+    [exact (split_digest_leaf_lt P _ _ _ _ H) | exact (split_digest_tree_lt P _ _ _ _ H)].
+Qed.
+Print Assumptions C16_index_bounds.
+
+(* every base-w digit (message digits and checksum digits) is at most w-1 *)
+Theorem C16_wots_digits_below_w :
+  forall P msg i, nth i (wotsChecksum P msg) 0 <= N.of_nat (p_w P) - 1.
+Proof. exact wotsChecksum_digit. Qed.
+Print Assumptions C16_wots_digits_below_w.
+
+(* === the layers, as coded (mutable address included) ==================== *)
 
 Theorem C16_chain_compose :
   forall (HS : hashes) a b x i pk ad,
@@ -11,3 +104,103 @@ Theorem C16_chain_compose :
     = chain HS x i (a + b) pk ad.
 Proof. exact chain_compose. Qed.
 Print Assumptions C16_chain_compose.
+
+(* WOTS+: the public key recomputed from a signature is the generated one,
+   for any three WOTS_HASH addresses agreeing on layer, tree and key pair *)
+Theorem C16_wots_pkFromSig_sign :
+  forall P HS, hashes_ok P HS -> forall msg sk pk ad ad1 ad2,
+    a_typ ad = T_WOTSHASH -> eq23 ad1 ad -> eq23 ad2 ad ->
+    fst (wotsPkFromSig P HS (fst (wotsSign P HS msg sk pk ad)) msg pk ad1) = fst (wotsPkGen P HS sk pk ad2).
+Proof. exact wots_complete. Qed.
+Print Assumptions C16_wots_pkFromSig_sign.
+
+(* XMSS: for EVERY leaf index below 2^h' the signature leads back to the root *)
+Theorem C16_xmss_pkFromSig_sign :
+  forall P HS, hashes_ok P HS -> forall msg sk idx pk ad ad1 ad2,
+    eqlt ad1 ad -> eqlt ad2 ad -> idx < 2 ^ N.of_nat (p_hp P) ->
+    fst (xmssPkFromSig P HS idx (fst (xmssSign P HS msg sk idx pk ad)) msg pk ad1)
+    = fst (xmssNode P HS (p_hp P) sk 0 pk ad2).
+Proof. exact xmss_complete. Qed.
+Print Assumptions C16_xmss_pkFromSig_sign.
+
+(* hypertree: htVerify accepts htSign against the root keygen computes, for
+   every in-range (idxTree, idxLeaf) *)
+Theorem C16_ht_verify_sign :
+  forall P HS, hashes_ok P HS -> (1 <= p_d P)%nat -> forall msg sk pk idxTree idxLeaf,
+    idxLeaf < 2 ^ N.of_nat (p_hp P) -> idxTree < 2 ^ N.of_nat ((p_d P - 1) * p_hp P) ->
+    htVerify P HS msg (htSign P HS msg sk pk idxTree idxLeaf) pk idxTree idxLeaf
+      (fst (xmssNode P HS (p_hp P) sk 0 pk (setLayerAddress (N.of_nat (p_d P - 1)) newAddress))) = true.
+Proof. exact ht_complete. Qed.
+Print Assumptions C16_ht_verify_sign.
+
+(* === the Go-shaped (address-threading) functions compute the FIPS-shaped
+       ones (explicit addresses, model/SlhdsaSpec.v) ======================= *)
+
+Theorem C16_threaded_equals_fips_shape :
+  forall P HS,
+    (forall z sk i pk ad, fst (xmssNode P HS z sk i pk ad) = xmssNodeS P HS (a_layer ad) (a_tree ad) sk pk z i) /\
+    (forall msg sk idx pk ad, fst (xmssSign P HS msg sk idx pk ad) = xmssSignS P HS (a_layer ad) (a_tree ad) msg sk idx pk) /\
+    (forall idx sig msg pk ad, fst (xmssPkFromSig P HS idx sig msg pk ad) = xmssPkFromSigS P HS (a_layer ad) (a_tree ad) idx sig msg pk) /\
+    (forall md sk pk ad, a_typ ad = T_FORSTREE ->
+       fst (forsSign P HS md sk pk ad) = forsSignS P HS (a_layer ad) (a_tree ad) (a_kp ad) (base2b md (p_a P) (p_k P)) sk pk) /\
+    (forall sig md pk ad, a_typ ad = T_FORSTREE ->
+       fst (forsPkFromSig P HS sig md pk ad) = forsPkFromSigS P HS (a_layer ad) (a_tree ad) (a_kp ad) (base2b md (p_a P) (p_k P)) sig pk) /\
+    (forall msg sk pk idxTree idxLeaf, htSign P HS msg sk pk idxTree idxLeaf = htSignS P HS msg sk pk idxTree idxLeaf) /\
+    (forall msg sigHT pk idxTree idxLeaf root, htVerify P HS msg sigHT pk idxTree idxLeaf root = htVerifyS P HS msg sigHT pk idxTree idxLeaf root).
+Proof.
+  intros P HS. repeat split; intros.
+  - apply xmssNode_spec. - apply xmssSign_spec. - apply xmssPkFromSig_spec.
+  - apply forsSign_spec; auto. - apply forsPkFromSig_spec; auto.
+  - apply htSign_spec. - apply htVerify_spec.
+Qed.
+Print Assumptions C16_threaded_equals_fips_shape.
+
+(* === the parameter sets ================================================= *)
+
+(* all twelve sets: h = d*hp, d >= 1, n <= 32, h-hp <= 64, hp < 32, lgw >= 1,
+   m = ceil(k*a/8) + ceil((h-hp)/8) + ceil(hp/8) *)
+Theorem C16_parameter_sets_wellformed : forallb set_ok all_sets = true.
+Proof. exact all_sets_ok. Qed.
+Print Assumptions C16_parameter_sets_wellformed.
+
+(* n, w, len1, len2, len, signature / public key / secret key sizes *)
+Theorem C16_derived_values :
+  derived param128s = [16; 16; 32; 3; 35; 7856; 32; 64] /\
+  derived param128f = [16; 16; 32; 3; 35; 17088; 32; 64] /\
+  derived param192s = [24; 16; 48; 3; 51; 16224; 48; 96] /\
+  derived param192f = [24; 16; 48; 3; 51; 35664; 48; 96] /\
+  derived param256s = [32; 16; 64; 3; 67; 29792; 64; 128] /\
+  derived param256f = [32; 16; 64; 3; 67; 49856; 64; 128].
+Proof. exact derived_values. Qed.
+Print Assumptions C16_derived_values.
+
+(* === non-vacuity ======================================================== *)
+(* A toy hash family (a polynomial checksum modulo 65521) on a toy parameter record satisfies the
+   premises; on it sign/verify compute: the genuine signature is accepted,
+   the signature with one byte changed and a changed message are rejected. *)
+Definition toyP : params := mkParams 2 4 2 2 2 2 2 3.
+Definition toy_sum (l : bytes) : N := fold_left (fun acc b => (acc * 31 + b + 1) mod 65521) l 7.
+Definition toy_mix (l : bytes) : bytes := let s := toy_sum l in [s mod 256; s / 256].
+Definition toyHS : hashes :=
+  mkHashes (fun r s t m => let x := toy_sum (r ++ s ++ t ++ m) in [x mod 256; (3 * x + 1) mod 256; (5 * x + 2) mod 256])
+           (fun p s a => toy_mix (p ++ adrs_bytes a ++ s))
+           (fun s o m => toy_mix (s ++ o ++ m))
+           (fun p a x => toy_mix (p ++ compress a ++ x))
+           (fun p a x => toy_mix (p ++ adrs_bytes a ++ x))
+           (fun p a x => toy_mix (p ++ adrs_bytes a ++ x)).
+
+Example C16_nonvacuous :
+  hashes_ok toyP toyHS /\ params_wf toyP /\
+  let sk := keygen toyP toyHS [1; 2] [3; 4] [5; 6] in
+  let pk := skipn 4 sk in
+  match sign toyP toyHS sk [9; 9; 9] [7] [8; 8] with
+  | Some sig => verify toyP toyHS pk [9; 9; 9] sig [7] = Some true
+                /\ verify toyP toyHS pk [9; 9; 8] sig [7] = Some false
+                /\ verify toyP toyHS pk [9; 9; 9] (firstn 10 sig ++ [N.lxor (nth 10 sig 0) 1] ++ skipn 11 sig) [7] = Some false
+                /\ verify toyP toyHS pk [9; 9; 9] (firstn 10 sig) [7] = Some false
+  | None => False
+  end.
+Proof.
+  split; [constructor; intros; reflexivity|]. split; [split; [reflexivity|apply le_S, le_n]|].
+  vm_compute. repeat split.
+Qed.
